@@ -41,13 +41,39 @@ NEEDS = {
  "C19-m2": "definitions with >= 3 processes laid out",
  "C20-m1": "pool exhausted with a draw blocked, snapshot taken in that state, draw from the restored generator within the same 4 ms unit",
  "C20-m2": "two goroutines inside fallbackGenerator.New interleaved add/add/load/load",
+ "C02-m3": "a waiter whose context expires before the helper goroutine obtains the completion lock, then another waiter (the helper blocks forever holding the lock)",
+ "C02-m4": "a parallel join with more incoming than outgoing flows (surplus tokens are never told to stop)",
+ "C03-m3": "a token descheduled between asking the gateway and waiting for its answer (non-blocking hand-off loses the wake-up)",
+ "C03-m4": "a parallel gateway with as many outgoing as incoming flows (>= 2) - absolute instead of relative flow indices",
+ "C04-m4": "an exclusive gateway whose default flow is taken, then entered again by another token",
+ "C08-m3": "one answer carrying both a data output and a result field",
+ "C08-m4": "a result field declared with an item type different from the supplied value's kind",
+ "C13-m3": "a timer due at an instant outside the int64-nanosecond range (year > 2262)",
+ "C13-m4": "the same catch event reached by a second token after the first was released",
+ "C16-m3": "a stored array/object read twice, the first reader mutating what it was handed",
+ "C16-m4": "a task result for a result field whose declaration leaves the item type empty",
+ "C19-m3": "one ProcessBuilder used for a second process after Out()",
+ "C19-m4": "a layout configuration whose row gap is zero",
+ "C20-m3": "two goroutines drawing from one sno generator concurrently",
+ "C20-m4": "two sno generators created within the same clock unit",
+}
+BY = {  # caught by another property's quick check (run with tools/mutant_sweep.sh <seed>@<property>)
+ "C01-m1": "C03", "C10-m2": "C11", "C16-m4": "C08", "C13-m4": "C11", "C02-m4": "C03",
+}
+WHY_MISSED = {
+ "C04-m2": "needs 3 concurrent tokens at one gateway (scenario does not close; with the change the gateway busy-loops)",
+ "C07-m1": "needs the real inner tracer + relay across a cancellation with more traces than the relay's subscription holds: the three scenarios written for it (thorough tier) do not close",
+ "C13-m3": "instants outside the int64-nanosecond range are outside the model (time.Time is an int64 of nanoseconds)",
+ "C14-m2": "shortest violating history has length 9; the L=9 scenarios (thorough) do not close in 30 min",
+ "C15-m1": "pure encoding/xml behaviour: outside the claimed sub-claims",
+ "C18-m2": "needs two message-instantiated processes alive at once (thorough scenario 'message flow, 2 throws' does not close in the quick budget)",
 }
 results = {}
 for f in sys.argv[1:]:
     if not os.path.exists(f):
         continue
     for line in open(f):
-        m = re.match(r"RESULT (C\d\d-m\d) (.*)", line)
+        m = re.match(r"RESULT (C\d\d-m\d(?:@C\d\d)?) (.*)", line)
         if m:
             results[m.group(1)] = m.group(2).strip()
 root = "/verif/seeded"
@@ -58,11 +84,22 @@ for d in sorted(os.listdir(root)):
         continue
     r = results.get(d, "not run against the checks")
     caught = ("rc=1" in r and "violations=0 " not in r)
+    by = ""
+    if not caught and d in BY:
+        r2 = results.get(d + "@" + BY[d], "")
+        if "rc=1" in r2 and "violations=0 " not in r2:
+            caught, by, r = True, "by %s's check" % BY[d], r2
     meta = dict(id=d, property=d.split("-")[0], needs=NEEDS.get(d, ""),
                 confirmed="tools/seed_confirm.sh in a scratch worktree of /repo HEAD: existing suite passes with the change; demonstration passes without the change and fails with it",
                 check_run="tools/mutant_sweep.sh: git -C /repo apply patch.diff; ./check %s --tier quick; git -C /repo checkout -- ." % d.split("-")[0],
                 check_result=r, caught_by_quick_check=caught)
     json.dump(meta, open(os.path.join(p, "meta.json"), "w"), indent=1)
-    rows.append((d, NEEDS.get(d, ""), "caught" if caught else "MISSED", r))
+    meta["caught_by"] = by or (d.split("-")[0] if caught else "")
+    json.dump(meta, open(os.path.join(p, "meta.json"), "w"), indent=1)
+    rows.append((d, NEEDS.get(d, ""), "caught" if caught else "MISSED", by if caught else WHY_MISSED.get(d, "")))
+print("| seeded change | what it needs to manifest | quick tier | detail |")
+print("|---|---|---|---|")
 for row in rows:
-    print("| %s | %s | %s |" % (row[0], row[1], row[2]))
+    print("| %s | %s | %s | %s |" % row)
+print()
+print("%d of %d confirmed seeded changes are caught by a quick check." % (sum(1 for r in rows if r[2] == "caught"), len(rows)))
